@@ -127,7 +127,7 @@ impl<'a> G<'a> {
                         self.form = F::Gone;
                     }
                     11 => {
-                        let a = self.r.below(48);
+                        let a = self.r.below(240);
                         self.push(Op::a(OpK::VKindConv, a));
                     }
                     9 => {
